@@ -33,7 +33,7 @@ ASSUMPTIONS = ['column mnemonics distinct within a table; byte cells <= 255 byte
                'a zero-length text cell may be read back as None (no value) or b\'\'']
 SHARDS = {'quick': 4, 'thorough': 16}
 REQUIRED_CLASSES = {'table-duplicate-row': 1, 'table-float-cell': 1, 'table-int16-cell': 1, 'table-int32-cell': 1,
-                    'table-empty': 1, 'table-spans-physical-records': 1, 'dfsr-odd-entry-set': 1, 'dfsr-dipmeter': 1,
+                    'table-empty': 1, 'table-spans-physical-records': 1, 'dfsr-odd-entry-set': 1, 'dfsr-dipmeter': 1, 'dfsr-zero-size-block-over-default': 1,
                     'cell-255-bytes': 1}
 
 
@@ -187,7 +187,7 @@ def check_table(case, cc):
 # -------------------------------------------------------------------------------------------------
 @st.composite
 def dfsr_models(draw):
-    blocks = draw(G.entry_block_models())
+    blocks = draw(G.entry_block_models(zero_size=True))
     n = draw(st.integers(1, 8))
     dsbs = [draw(G.dsb_models()) for _ in range(n)]
     return {'blocks': blocks, 'dsbs': dsbs, 'pr_len': draw(st.one_of(st.integers(16, 64), st.integers(16, 4096)))}
@@ -201,7 +201,7 @@ ATTRS = {'dataType': 1, 'dsbType': 2, 'upDown': 4, 'optLogScale': 5, 'frameSpaci
 def compare_dfsr(cc, route, dfsr, model):
     want = dict(EB_DEFAULTS)
     for b in model['blocks']:
-        want[b['type']] = expected_value(b['value'])
+        want[b['type']] = None if b['size'] == 0 else expected_value(b['value'])
     for t, ev in want.items():
         gv = dfsr.ebs[t].value
         if gv != ev or (ev is not None and type(gv) is not type(ev)):
@@ -239,6 +239,7 @@ def check_dfsr(case, cc):
     cc.cls('dfsr-dipmeter', any(d['rc'] in (130, 234) for d in model['dsbs']))
     cc.cls('dfsr-all-blocks', len(model['blocks']) >= 14)
     cc.cls('dfsr-no-blocks', not model['blocks'])
+    cc.cls('dfsr-zero-size-block-over-default', any(b['size'] == 0 and EB_DEFAULTS.get(b['type']) is not None for b in model['blocks']))
     cc.nt(odd)
     cc.sample({'blocks': [(b['type'], b['value']) for b in model['blocks']], 'channels': [(d['mnem'], d['rc'], d['samples'], d['bursts']) for d in model['dsbs']]})
     # route (a): TotalDepth composes the entry block set
